@@ -228,7 +228,18 @@ def run(rep: Report, ctx: Any) -> str:
               "model.py.jinja::additional_property_type::quoted", "the additional-properties annotation is not quoted for non-base types",
               where=f"{PKG}/templates/model.py.jinja")
     mp = ix.cls("ModelProperty").methods.get("get_type_string")
-    rep.check("if quoted" in norm(mp.node) and "f\"'{type_string}'\"" in norm(mp.node), "R01.3", "ModelProperty.get_type_string::quotes-class-name",
+    def _quotes(fn: ast.AST) -> bool:
+        # an `if` on the parameter `quoted` whose body builds '<something>' (f-string that starts and ends with a single quote)
+        for i_ in ast.walk(fn):
+            if isinstance(i_, ast.If) and any(isinstance(n_, ast.Name) and n_.id == "quoted" for n_ in ast.walk(i_.test)):
+                for j in [x for b_ in i_.body for x in ast.walk(b_) if isinstance(x, ast.JoinedStr)]:
+                    v = j.values
+                    if (len(v) >= 3 and isinstance(v[0], ast.Constant) and v[0].value == "'" and isinstance(v[-1], ast.Constant)
+                            and v[-1].value == "'" and any(isinstance(x, ast.FormattedValue) for x in v)):
+                        return True
+        return False
+
+    rep.check(_quotes(mp.node), "R01.3", "ModelProperty.get_type_string::quotes-class-name",
               "quoted=True no longer quotes the class name", where(mp, mp.node))
 
     # ---- R01.4 -------------------------------------------------------------------------------------------------------------------
